@@ -124,6 +124,14 @@ def check_case(ref, W, fs, s):
         R = set(Rl)
         if len(R) != len(Rl):
             bad(f"duplicates/{fname}", Rl[:6], "unique")
+        # the Sid objects a Finder hands out are the typed Sids of those strings
+        try:
+            objs = list(f.find(s))
+            wrong = [(o.uri, Sid(str(o)).uri) for o in objs[:60] if (not o) or o.uri != Sid(str(o)).uri]
+            if wrong or [str(o) for o in objs] != Rl:
+                bad(f"result-objects-are-not-the-typed-sids-of-the-result-strings/{fname}", wrong[:3] or [str(o) for o in objs][:4], Rl[:4])
+        except Exception as e:  # noqa
+            bad(f"exception/{type(e).__name__}/{fname}/as-sid", repr(e)[:120], "a result")
         for r in Rl[:40]:
             x = Sid(r)
             if not x:
